@@ -16,6 +16,8 @@ pub struct StepCtx<'a> {
     pub obs: &'a Observed,
     pub before: &'a [DumpItem],
     pub after: &'a [DumpItem],
+    /// the eviction loop ran inside this command (victim choices were taken)
+    pub evicting: bool,
 }
 
 fn entry<'a>(d: &'a [DumpItem], key: &[u8]) -> Option<&'a DumpItem> {
@@ -53,12 +55,15 @@ fn gone_clause(st: &KeyState) -> &'static str {
     }
 }
 
-/// A presence-dependent command treated a dead record as present: dead by its own TTL is C05's
-/// matter, dead by a delayed flush's deadline is C08's.
-fn tomb_visible_clause(st: &KeyState) -> &'static str {
-    match st {
-        KeyState::Tomb(TombWhy::FlushDeadline) => "flush-deadline",
-        _ => "expired-visible",
+/// A presence-dependent command treated a dead record as present.  Dead by its own TTL is C05's
+/// matter, dead by a delayed flush's deadline is C08's; and the command family's own property
+/// (C06 for add/replace/append/prepend, C07 for incr/decr) quantifies over expired and flushed keys too.
+fn tomb_visible_clause(st: &KeyState, counter: bool) -> &'static str {
+    match (st, counter) {
+        (KeyState::Tomb(TombWhy::FlushDeadline), false) => "flush-deadline-cond",
+        (KeyState::Tomb(TombWhy::FlushDeadline), true) => "flush-deadline-counter",
+        (_, false) => "expired-visible-cond",
+        (_, true) => "expired-visible-counter",
     }
 }
 
@@ -234,7 +239,25 @@ impl Model {
                 let key = key_bytes.clone();
                 let ki = self.key_info(&key);
                 let ev = match &ki.st {
-                    KeyState::Item(it) if self.now < it.lower => self.eval_keyed(&ki, Some(it), c, r),
+                    KeyState::Item(it) if self.now < it.lower => {
+                        let e1 = self.eval_keyed(&ki, Some(it), c, r);
+                        // the policy evicts before it stores: when the loop ran, the addressed key's own old
+                        // record may have been the victim, and the command then met an absent key
+                        let storeish = matches!(c.cmd, Cmd::Store { .. } | Cmd::Concat { .. } | Cmd::Delta { .. });
+                        if !e1.viol.is_empty() && c.evicting && storeish && self.evict != Evict::Off {
+                            let mut k2 = ki.clone();
+                            push_stale(&mut k2.stale, it.tok, None);
+                            k2.st = KeyState::Absent(Gone::Evicted);
+                            let e2 = self.eval_keyed(&k2, None, c, r);
+                            if e2.viol.is_empty() {
+                                e2
+                            } else {
+                                e1
+                            }
+                        } else {
+                            e1
+                        }
+                    }
                     KeyState::Item(it) => {
                         let e1 = self.eval_keyed(&ki, Some(it), c, r);
                         if e1.viol.is_empty() {
@@ -258,6 +281,15 @@ impl Model {
                     }
                     _ => self.eval_keyed(&ki, None, c, r),
                 };
+                let mut ev = ev;
+                // a CAS-carrying store during which the eviction loop ran may have met its own key
+                // just evicted: the lifetime it begins is then one begun by a CAS store on an absent
+                // key, which the uniqueness claim excludes (the two cases look the same from outside)
+                if c.evicting && c.cas != 0 && self.evict != Evict::Off {
+                    if let KeyState::Item(it) = &mut ev.ki.st {
+                        it.exempt = true;
+                    }
+                }
                 let bad = !ev.viol.is_empty();
                 out.extend(ev.viol);
                 self.keys.insert(key.clone(), ev.ki);
@@ -571,7 +603,10 @@ impl Model {
                         // an item stored while a delayed flush is pending must not inherit its deadline
                         let flush_pending = matches!(present, Some(it) if it.upper < it.own_upper);
                         let value_ok = matches!(after_e, Some(d) if d.value == *value && d.flags == *flags);
-                        let clause = if flush_pending && value_ok {
+                        let clause = if after_e.is_none() && self.evict != Evict::Off {
+                            // with eviction on, the one way an acknowledged record can be missing at once
+                            "own-record-evicted"
+                        } else if flush_pending && value_ok {
                             "store-after-flush-affected"
                         } else if value_ok {
                             // value and flags are the sent ones, the recorded life is not now + ttl:
@@ -667,7 +702,7 @@ impl Model {
                         let expired = matches!(ki.st, KeyState::Tomb(_));
                         if *kind == StoreKind::Replace {
                             if success {
-                                let clause = if expired { tomb_visible_clause(&ki.st) } else { "replace-on-absent" };
+                                let clause = if expired { tomb_visible_clause(&ki.st, false) } else { "replace-on-absent" };
                                 ev.viol.push(v(clause, format!("{} succeeded on a key in state {:?}", name, ki.st)));
                             } else {
                                 if status != Some(st::NOT_FOUND) {
@@ -684,7 +719,7 @@ impl Model {
                         } else if c.cas == 0 {
                             let clause = if *kind == StoreKind::Add {
                                 if expired {
-                                    tomb_visible_clause(&ki.st)
+                                    tomb_visible_clause(&ki.st, false)
                                 } else {
                                     "add-on-absent"
                                 }
@@ -730,7 +765,10 @@ impl Model {
                                         ));
                                     }
                                 }
-                                None => ev.viol.push(v("concat-value", format!("{} acknowledged but the item is gone", name))),
+                                None => ev.viol.push(v(
+                                    if self.evict != Evict::Off { "own-record-evicted" } else { "concat-value" },
+                                    format!("{} acknowledged but the item is gone", name),
+                                )),
                             }
                             let t = new_token(&mut ev, &it.carried, it.exempt);
                             let mut ni = it.clone();
@@ -770,7 +808,7 @@ impl Model {
                 }
                 None => {
                     if success {
-                        let clause = if matches!(ki.st, KeyState::Tomb(_)) { tomb_visible_clause(&ki.st) } else { "concat-on-absent" };
+                        let clause = if matches!(ki.st, KeyState::Tomb(_)) { tomb_visible_clause(&ki.st, false) } else { "concat-on-absent" };
                         ev.viol.push(v(clause, format!("{} succeeded on a key in state {:?}", name, ki.st)));
                     } else if after_e.is_some() && !unchanged {
                         ev.viol.push(v("nothing-stored", format!("rejected {} left {:?}", name, after_e)));
@@ -828,7 +866,10 @@ impl Model {
                                             ));
                                         }
                                     }
-                                    None => ev.viol.push(v("counter-text", format!("{} acknowledged but the item is gone", name))),
+                                    None => ev.viol.push(v(
+                                        if self.evict != Evict::Off { "own-record-evicted" } else { "counter-text" },
+                                        format!("{} acknowledged but the item is gone", name),
+                                    )),
                                 }
                                 let t = new_token(&mut ev, &it.carried, it.exempt);
                                 let mut ni = it.clone();
@@ -933,7 +974,7 @@ impl Model {
                         });
                         ev.wrote = true;
                     } else if c.cas == 0 {
-                        let clause = if matches!(ki.st, KeyState::Tomb(_)) { tomb_visible_clause(&ki.st) } else { "counter-create" };
+                        let clause = if matches!(ki.st, KeyState::Tomb(_)) { tomb_visible_clause(&ki.st, true) } else { "counter-create" };
                         ev.viol.push(v(clause, format!("{} answered {:?} on a key in state {:?}", name, status, ki.st)));
                     } else if after_e.is_some() && !unchanged {
                         ev.viol.push(v("nothing-stored", format!("rejected {} left {:?}", name, after_e)));
